@@ -196,6 +196,67 @@ def check_run(spec):
     return Result.ok(labels, nref >= 1)
 
 
+def check_gate(case):
+    """Covering gate of VOGP_AD on an injected state: candidates of mixed depths with pairwise incomparable, mutually
+    un-coverable regions.  Nothing may enter P while any candidate is below the maximum depth."""
+    from vopy.confidence_region import RectangularConfidenceRegion
+
+    spec = case["spec"]
+    alg, ctx = ha.build(spec)
+    ds = alg.design_space
+    md = spec["problem"]["depth_max"]
+    m = spec["problem"]["m"]
+    labels = ["gate", f"max_depth={md}"]
+    refined = set()
+    for k in case["refine"]:
+        cand = [i for i in range(len(ds.points)) if i not in refined and ds.point_depths[i] < md]
+        if not cand:
+            break
+        parent = cand[k % len(cand)]
+        ds.refine_design(parent)
+        refined.add(parent)
+    leaves = [i for i in range(len(ds.points)) if i not in refined]
+    order = [leaves[k % len(leaves)] for k in case["pick"]]
+    S = list(dict.fromkeys(order))
+    # regions spread along an anti-diagonal: far apart and incomparable for every cone around the diagonal, tiny boxes
+    W = np.asarray(ctx.order.ordering_cone.W, float)
+    perp = np.zeros(m)
+    perp[0], perp[1] = 1.0, -1.0
+    for r, i in enumerate(S):
+        c = perp * 10.0 * (r + 1) * spec["eps"]
+        ds.confidence_regions[i] = RectangularConfidenceRegion(m, c - 1e-3, c + 1e-3)
+    alg.S = set(S)
+    alg.P = set()
+    shallow = [i for i in S if ds.point_depths[i] != md]
+    alg.epsiloncovering()
+    P1, S1 = set(alg.P), set(alg.S)
+    bad = [p for p in P1 if ds.point_depths[p] != md]
+    if bad:
+        return Result.violation("C18:gate:P-member-not-at-max-depth", f"S={S} depths={[ds.point_depths[i] for i in S]} max={md}: declared Pareto {sorted(P1)}", labels)
+    if shallow and (P1 or S1 != set(S)):
+        return Result.violation("C18:gate:covering-ran-with-shallow-candidate", f"S={S} depths={[ds.point_depths[i] for i in S]} -> S={sorted(S1)} P={sorted(P1)}", labels)
+    if not shallow:
+        labels.append("all-at-max-depth")
+        if len(S) >= 2 and not P1:
+            # un-coverable candidates at max depth must be declared (C03 holds the exact rule; here only non-vacuity)
+            return Result.violation("C18:gate:covering-never-enabled", f"S={S} all at depth {md} but P stayed empty", labels)
+    else:
+        labels.append("mixed-depths")
+    return Result.ok(labels, bool(shallow) and any(ds.point_depths[i] == md for i in S))
+
+
+@st.composite
+def st_gate(draw):
+    from vverif.props.C06 import st_spec_ad
+
+    spec = draw(st_spec_ad().filter(lambda s: s["problem"]["d"] >= s["problem"]["m"]))
+    spec["problem"]["depth_max"] = draw(st.sampled_from([3, 3, 4, 5])) if spec["problem"]["d"] < 3 else 3
+    spec["cone"] = draw(st.sampled_from([{"kind": "comp", "m": spec["problem"]["m"]}, {"kind": "theta", "deg": 60.0}, {"kind": "theta", "deg": 120.0}])
+                        if spec["problem"]["m"] == 2 else st.just({"kind": "comp", "m": 3}))
+    return {"spec": spec, "refine": draw(st.lists(st.integers(0, 40), min_size=1, max_size=5)),
+            "pick": draw(st.lists(st.integers(0, 60), min_size=1, max_size=6))}
+
+
 @st.composite
 def st_space(draw):
     d = draw(st.integers(1, 3))
@@ -221,5 +282,7 @@ def _ad():
 
 COMPONENTS = [
     Component("refine_histories", check_space, strategy=st_space, quick=1500, thorough=40000, rule="1..10 ops: refine any leaf below max depth / update / should_refine"),
+    Component("covering_gate_injected", check_gate, strategy=st_gate, quick=200, thorough=5000,
+              rule="VOGP_AD.epsiloncovering() on an injected candidate set of mixed depths (any index order) with un-coverable regions"),
     Component("vogp_ad_runs", check_run, strategy=_ad, quick=48, thorough=1500, rule="VOGP_AD runs (<= 80 steps), d=1..3, depth 1..3, cones, eps, contractions"),
 ]
